@@ -632,6 +632,90 @@ func (a *apiRun) call(c *sx) (string, *lungo.Handle) {
 			parts = append(parts, a.cn.enc(normalize(d)))
 		}
 		return "(" + strings.Join(parts, " ") + ")", &h
+	case "createColl":
+		db, co := unhx(c.list[2].atom), unhx(c.list[3].atom)
+		h := lungo.Handle{db, co}
+		if err := a.client.Database(db).CreateCollection(ctx, co); err != nil {
+			return errClass(err), &h
+		}
+		return "OK", &h
+	case "listColls":
+		// ListCollections (the specification documents) and ListCollectionNames (their names)
+		db := a.client.Database(unhx(c.list[2].atom))
+		flt := decValue(c.list[3])
+		cur, err := db.ListCollections(ctx, flt)
+		names, err2 := db.ListCollectionNames(ctx, flt)
+		if (err == nil) != (err2 == nil) {
+			return "LISTING-GLUE-MISMATCH", nil
+		}
+		if err != nil {
+			return errClass(err), nil
+		}
+		var out []bson.D
+		if err := cur.All(ctx, &out); err != nil {
+			return errClass(err), nil
+		}
+		if len(out) != len(names) {
+			return "LISTING-GLUE-MISMATCH", nil
+		}
+		parts := []string{"docs"}
+		for i, d := range out {
+			if n, _ := d.Map()["name"].(string); n != names[i] {
+				return "LISTING-GLUE-MISMATCH", nil
+			}
+			parts = append(parts, a.cn.enc(normalize(d)))
+		}
+		return "(" + strings.Join(parts, " ") + ")", nil
+	case "listDbs":
+		flt := decValue(c.list[2])
+		res, err := a.client.ListDatabases(ctx, flt)
+		names, err2 := a.client.ListDatabaseNames(ctx, flt)
+		if (err == nil) != (err2 == nil) {
+			return "LISTING-GLUE-MISMATCH", nil
+		}
+		if err != nil {
+			return errClass(err), nil
+		}
+		if len(res.Databases) != len(names) || res.TotalSize != 0 {
+			return "LISTING-GLUE-MISMATCH", nil
+		}
+		parts := []string{"docs"}
+		for i, d := range res.Databases {
+			if d.Name != names[i] {
+				return "LISTING-GLUE-MISMATCH", nil
+			}
+			parts = append(parts, enc(bson.D{{Key: "name", Value: d.Name}, {Key: "sizeOnDisk", Value: d.SizeOnDisk}, {Key: "empty", Value: d.Empty}}))
+		}
+		return "(" + strings.Join(parts, " ") + ")", nil
+	case "createMany":
+		co, h := a.coll(c)
+		var models []mongo.IndexModel
+		for _, sp := range c.list[4:] {
+			io := options.Index()
+			if n := unhx(sp.list[0].atom); n != "" {
+				io.SetName(n)
+			}
+			if tb(sp.list[2]) {
+				io.SetUnique(true)
+			}
+			if p := optDoc(sp.list[3]); p != nil {
+				io.SetPartialFilterExpression(p)
+			}
+			if sp.list[4].atom != "NIL" {
+				io.SetExpireAfterSeconds(int32(atoi64(sp.list[4].atom)))
+			}
+			models = append(models, mongo.IndexModel{Keys: decValue(sp.list[1]), Options: io})
+		}
+		names, err := co.Indexes().CreateMany(ctx, models)
+		hn := make([]string, len(names))
+		for i, n := range names {
+			hn[i] = hx(n)
+		}
+		st := "OK"
+		if err != nil {
+			st = errClass(err)
+		}
+		return "(names (" + strings.Join(hn, " ") + ") " + st + ")", &h
 	case "dropColl":
 		co, h := a.coll(c)
 		if err := co.Drop(ctx); err != nil {
@@ -788,6 +872,7 @@ type apiGen struct {
 	fullU      bool   // full update grammar (after Model/Apply.v is merged)
 	fullP      bool   // projections (after Model/Project.v is merged)
 	uniqField  string // field of the unique index the history starts with ("" if none)
+	grid       bool   // the history starts with a unique COMPOUND index on a and b: keys from a 3x3 grid
 }
 
 func (g *apiGen) id() interface{} {
@@ -871,6 +956,13 @@ func (g *apiGen) doc(withID bool) (d bson.D) {
 		defer func() { d = append(d, bson.E{Key: "d", Value: bson.D{{Key: "e", Value: e}}}) }()
 	}
 	for _, k := range []string{"a", "b", "c"} {
+		if g.grid && k != "c" && g.r.chance(5, 6) {
+			// compound unique key from a small grid, in every numeric spelling:
+			// groups sharing the first column, duplicates inside a group
+			n := int64(g.r.intn(3) + 1)
+			d = append(d, bson.E{Key: k, Value: pick(g.r, []interface{}{int32(n), int32(n), n, float64(n)})})
+			continue
+		}
 		if k == g.uniqField && g.r.chance(1, 2) {
 			// small integer keys under the unique index: neighbours collide when shifted
 			d = append(d, bson.E{Key: k, Value: int32(g.r.intn(6) + 1)})
@@ -1172,6 +1264,9 @@ func (g *apiGen) call() string {
 		srt := enc(bson.D{{Key: g.uniqField, Value: pick(r, []interface{}{int32(1), int32(1), int32(-1)})}})
 		return "(find " + s + " " + hx(apiDbs[0]) + " " + hx(apiColls[0]) + " (D) " + srt + " NIL " + strconv.Itoa(pick(r, []int{0, 0, 1})) + " " + strconv.Itoa(pick(r, []int{0, 0, 3})) + ")"
 	}
+	if r.chance(1, 14) {
+		return g.extCall(s, t, readOnly)
+	}
 	switch {
 	case k < 18:
 		return "(insertOne " + s + " " + t + " " + enc(g.doc(r.chance(4, 5))) + ")"
@@ -1305,6 +1400,62 @@ func (g *apiGen) call() string {
 	}
 }
 
+// extCall draws one of the catalog-level calls (Model/DriverExt.v):
+// CreateCollection, ListCollections(+Names), ListDatabases(+Names), CreateMany.
+func (g *apiGen) extCall(s, t string, readOnly bool) string {
+	r := g.r
+	listFilter := func(dbs bool) bson.D {
+		names := []interface{}{apiColls[0], apiColls[1], "made", "oplog", "nope"}
+		if dbs {
+			names = []interface{}{apiDbs[0], apiDbs[1], "local", "nope"}
+		}
+		switch r.intn(9) {
+		case 0:
+			return bson.D{{Key: "name", Value: pick(r, names)}}
+		case 1:
+			return bson.D{{Key: "name", Value: bson.D{{Key: "$in", Value: bson.A{pick(r, names), pick(r, names)}}}}}
+		case 2:
+			return bson.D{{Key: "name", Value: bson.D{{Key: pick(r, []string{"$gt", "$lte", "$ne"}), Value: pick(r, names)}}}}
+		case 3:
+			if dbs {
+				return bson.D{{Key: "empty", Value: r.chance(1, 2)}}
+			}
+			return bson.D{{Key: pick(r, []string{"idIndex.v", "idIndex.key._id"}), Value: pick(r, []interface{}{int32(2), int64(1), float64(2), "2"})}}
+		case 4:
+			if dbs {
+				return bson.D{{Key: "sizeOnDisk", Value: bson.D{{Key: pick(r, []string{"$gte", "$gt", "$type"}), Value: pick(r, []interface{}{int32(0), int64(0), "long", "int"})}}}}
+			}
+			return bson.D{{Key: pick(r, []string{"info.readOnly", "type", "idIndex.name", "options", "info.uuid"}), Value: pick(r, []interface{}{false, "collection", "_id_", bson.D{}, apiDbs[0] + "." + apiColls[0]})}}
+		case 5:
+			return bson.D{{Key: "$bogus", Value: int32(1)}} // the matcher fails on the first specification document
+		default:
+			return bson.D{}
+		}
+	}
+	k := r.intn(10)
+	if readOnly && k < 5 {
+		k = 5 + r.intn(5)
+	}
+	switch {
+	case k < 3:
+		db := pick(r, []string{apiDbs[0], apiDbs[0], apiDbs[1], "local", "", "a.b"})
+		co := pick(r, []string{apiColls[0], apiColls[1], "made", "made", ""})
+		return "(createColl " + s + " " + hx(db) + " " + hx(co) + ")"
+	case k < 5:
+		n := 1 + r.intn(3)
+		var specs []string
+		for i := 0; i < n; i++ {
+			specs = append(specs, "("+g.indexSpec()+")")
+		}
+		return "(createMany " + s + " " + t + " " + strings.Join(specs, " ") + ")"
+	case k < 8:
+		db := pick(r, []string{apiDbs[0], apiDbs[0], apiDbs[0], apiDbs[1], "local", "", "a.b", "nope"})
+		return "(listColls " + s + " " + hx(db) + " " + enc(listFilter(false)) + ")"
+	default:
+		return "(listDbs " + s + " " + enc(listFilter(true)) + ")"
+	}
+}
+
 func genAPI(r *rng) string { return genAPIMode(r, true) }
 
 // genAPIFull uses the whole operator grammar (model-free oracles; the
@@ -1327,6 +1478,17 @@ func genAPIMode(r *rng, full bool) string {
 		parts = append(parts, "(createIndex 0 "+hx(apiDbs[0])+" "+hx(apiColls[0])+" x "+enc(bson.D{{Key: f, Value: int32(1)}})+" T "+partial+" NIL)")
 		g.knownNames = append(g.knownNames, f+"_1")
 		g.uniqField = f
+	} else if r.chance(1, 3) {
+		// a unique compound index on (a, b) or (b, a) in every combination of
+		// directions (mixed ones included) over keys from a 3x3 grid
+		f1, f2 := "a", "b"
+		if r.chance(1, 3) {
+			f1, f2 = "b", "a"
+		}
+		d1, d2 := pick(r, []int32{1, -1}), pick(r, []int32{1, -1})
+		parts = append(parts, "(createIndex 0 "+hx(apiDbs[0])+" "+hx(apiColls[0])+" x "+enc(bson.D{{Key: f1, Value: d1}, {Key: f2, Value: d2}})+" T NIL NIL)")
+		g.knownNames = append(g.knownNames, fmt.Sprintf("%s_%d_%s_%d", f1, d1, f2, d2))
+		g.grid = true
 	}
 	for i := 0; i < n; i++ {
 		parts = append(parts, g.call())
@@ -1374,7 +1536,8 @@ func genSpecdiff(r *rng) string {
 		c := g.call()
 		g.openSess = 0
 		if strings.HasPrefix(c, "(trim") || strings.HasPrefix(c, "(start") ||
-			strings.HasPrefix(c, "(commit") || strings.HasPrefix(c, "(abort") || strings.HasPrefix(c, "(end") {
+			strings.HasPrefix(c, "(commit") || strings.HasPrefix(c, "(abort") || strings.HasPrefix(c, "(end") ||
+			strings.HasPrefix(c, "(createColl") || strings.HasPrefix(c, "(createMany") || strings.HasPrefix(c, "(list") && !strings.HasPrefix(c, "(listIndexes") {
 			continue
 		}
 		parts = append(parts, c)
